@@ -42,6 +42,21 @@ class QueuePeekable(Queue):
         self._wakeup_next(self._putters)
         return item
 
+    def put_nowait_before(self, item, is_successor):
+        """Put an item in front of the first queued item for which is_successor returns True.
+
+        If there is no such item, behaves like put_nowait.
+        """
+        for index, queued_item in enumerate(self._queue):
+            if is_successor(queued_item):
+                self._queue.insert(index, item)
+                self._unfinished_tasks += 1
+                self._finished.clear()
+                self._wakeup_next(self._getters)
+                return
+
+        self.put_nowait(item)
+
 
 if sys.version_info < (3, 10):
     class QueuePeekableBackwardCompatible(QueuePeekable):
